@@ -328,6 +328,26 @@ def r1(ctx, new):
     ok = bool(lps) and not ctx.adapters(lps[0].iter_term) and lps[0].driver_only_exit
     shown = short(lps[0].iter_term, 100) if lps else None
     if not lps:
+        # the same walk with the counter spelled out: `(0..party_count).zip(g_vec.iter_mut().zip(h_vec.iter_mut()))`, the count being the
+        # (checked u32 of the) party capacity -- position i of the range meets vector i
+        for lp in ctx.loops(new).values():
+            it0 = strip(lp.iter_term) if lp.iter_term is not None else None
+            if it0 is None or it0.tag != 'zip':
+                continue
+            sides = [strip(it0[1]), strip(it0[2])]
+            rk = [k for k in (0, 1) if sides[k].tag == 'range' and strip(sides[k][1]).tag == 'const' and strip(sides[k][1])[1] == 0]
+            if len(rk) == 1:
+                bound = strip(sides[rk[0]][2])
+                while bound.tag == 'call' and bound[1].split('::')[-1] in ('try_from', 'from', 'into') and len(bound[2]) == 1:
+                    bound = strip(bound[2][0])
+                whole_count = bound.tag == 'param' and bound[2] == 2
+                other = sides[1 - rk[0]]
+                if whole_count and other.tag == 'zip' and not ctx.adapters(lp.iter_term) and lp.driver_only_exit:
+                    lps = [lp]
+                    ok = True
+                    shown = short(lp.iter_term, 100)
+                    break
+    if not lps:
         # the same iteration handed to for_each / try_for_each (which stops early on an error only): the iterator the filling closure is
         # applied to
         its = []
